@@ -52,7 +52,22 @@ GENERIC_C_COORDS = {
 }
 
 NP_DTYPES = {"f8": numpy.float64, "f4": numpy.float32, "i4": numpy.int32, "i2": numpy.int16,
-             "i8": numpy.int64, "b1": numpy.bool_}
+             "i8": numpy.int64, "b1": numpy.bool_, "M8": numpy.dtype("datetime64[ns]")}
+# "M8": a time stamp per cell (e.g. the time of the last observation): code c is stored as
+# 2000-01-01 + c seconds, a missing value as NaT
+STAMP_EPOCH = numpy.datetime64("2000-01-01T00:00:00", "ns")
+
+
+def stamp_of(code):
+    return STAMP_EPOCH + numpy.timedelta64(int(code), "s")
+
+
+def code_of_stamp(value):
+    """Inverse of stamp_of for a numpy.datetime64 (None for NaT)."""
+    value = numpy.datetime64(value, "ns")
+    if numpy.isnat(value):
+        return None
+    return int((value - STAMP_EPOCH) // numpy.timedelta64(1, "s"))
 
 
 # --------------------------------------------------------------------------------------------
@@ -204,8 +219,12 @@ def raw_array(spec, var):
     dtype = NP_DTYPES[var["dtype"]]
     fill = var.get("fill")
     arr = numpy.zeros(shape, dtype=dtype)
+    is_stamp = var["dtype"] == "M8"
     for idx in itertools.product(*(range(n) for n in shape)):
         val = value_of(spec, var, dict(zip(names, idx)))
+        if is_stamp:
+            arr[idx] = numpy.datetime64("NaT") if val is None else stamp_of(val)
+            continue
         if val is None:
             if fill is not None:
                 arr[idx] = fill[1]
@@ -447,6 +466,21 @@ def mesh_tables(faces, edges):
     return {"face_edge": face_edge, "edge_face": edge_face, "face_face": face_face}
 
 
+def supplied_edge_face(g):
+    """The edge-face table as the file holds it: rows [face, face], and for boundary edges
+    [face, None] or - with enc["edge_face_fill_first"] - alternately [None, face]."""
+    rows = mesh_tables(g["faces"], g["edges"])["edge_face"]
+    out = []
+    flip = bool(g["enc"].get("edge_face_fill_first"))
+    for row in rows:
+        if len(row) == 1:
+            out.append([None, row[0]] if flip else [row[0], None])
+            flip = (not flip) if g["enc"].get("edge_face_fill_first") else False
+        else:
+            out.append(list(row))
+    return out
+
+
 def _index_table(rows, width, start_index, fill_style, np_dtype, fill_value):
     """Encode a ragged table of 0-based indexes (None = missing) the way the spec asks."""
     n = len(rows)
@@ -514,7 +548,7 @@ def build_ugrid(spec):
         conn("face_edge", tables["face_edge"], max_nodes, d["face"], d["max_node"],
              "face_edge_connectivity")
     if "edge_face" in supply:
-        conn("edge_face", tables["edge_face"], 2, d["edge"], d["two"],
+        conn("edge_face", supplied_edge_face(g), 2, d["edge"], d["two"],
              "edge_face_connectivity")
     if "face_face" in supply:
         conn("face_face", tables["face_face"], max_nodes, d["face"], d["max_node"],
@@ -650,6 +684,21 @@ def build(spec):
                 ds = ds.load()
         return ds
     raise ValueError(mode)
+
+
+def construct_convention(spec, dataset):
+    """A new, unbound convention object of the expected class for a dataset built from spec."""
+    from vf.common import import_emsarray
+    import_emsarray()
+    import emsarray.conventions as conventions
+    conv_name = spec["conv"]
+    if conv_name == "arakawa":
+        return conventions.ArakawaC(dataset, coordinate_names=arakawa_coordinate_names())
+    cls = getattr(conventions, EXPECTED_CLASS[conv_name])
+    if conv_name in ("cf1d", "cf2d"):
+        names = spec["geom"]["names"]
+        return cls(dataset, latitude=names["lat"], longitude=names["lon"])
+    return cls(dataset)
 
 
 def bind_convention(spec, dataset):
